@@ -1,11 +1,11 @@
 -------------------------------- MODULE Ledger --------------------------------
 (***************************************************************************)
-(* The ledger of one (non-arbitrating) node: a chain of signed blocks and  *)
-(* the unspent output set they induce (C01, C02, C04).                     *)
+(* The ledger of one node: a chain of signed blocks and the unspent output *)
+(* set they induce (C01, C02, C03, C04).                                   *)
 (*                                                                         *)
 (* Abstract state s:                                                       *)
 (*   len, headSeq, headTime, headHash, genesisHash, uxhash                 *)
-(*   unspent : set of [id, coins, hours, time]   (coins/hours exact, BigNat)*)
+(*   unspent : set of [id, addr, coins, hours, time] (coins/hours: BigNat) *)
 (*   pool    : set of transaction hashes in the unconfirmed pool            *)
 (* A submitted block b is described by what it IS (hash, seq, time, prev,  *)
 (* uxhash, transactions with their inputs/outputs) and by what the harness *)
@@ -24,10 +24,11 @@ NoDupSeq(q) == \A i, j \in DOMAIN q : i # j => q[i] # q[j]
 
 Ux(s, id) == CHOOSE u \in s.unspent : u.id = id
 
-\* hours an input has accrued at the head time; overflow does not occur in the explored histories
-Accrued(s, id) == LET u == Ux(s, id) IN CoinHours(u.coins, u.hours, FromNat(u.time), FromNat(s.headTime))
+\* hours an input has accrued at the head time: [k |-> "ok" | "add" | "mult", r]
+AccruedK(s, id) == LET u == Ux(s, id) IN CoinHoursK(u.coins, u.hours, FromNat(u.time), FromNat(s.headTime))
 
-TxnValid(s, t) ==
+\* everything but the coin-hour rule (the same inside a block and for a single transaction)
+TxnShapeValid(s, t) ==
   /\ t.sigsOK
   /\ Len(t.ins) > 0 /\ Len(t.outs) > 0
   /\ NoDupSeq(t.ins)
@@ -37,11 +38,25 @@ TxnValid(s, t) ==
   /\ \A i \in DOMAIN t.outs : t.outs[i].id \notin Ids(s.unspent)         \* a new output never collides
   /\ LET cin  == SumBy(t.ins, LAMBDA id : Ux(s, id).coins)
          cout == SumBy(t.outs, LAMBDA o : o.coins)
-         hin  == SumBy(t.ins, LAMBDA id : Accrued(s, id).r)
-         hout == SumBy(t.outs, LAMBDA o : o.hours)
-     IN /\ FitsU64(cout) /\ cin = cout                                   \* coins are neither created nor destroyed
-        /\ \A i \in DOMAIN t.ins : ~Accrued(s, t.ins[i]).err
-        /\ FitsU64(hout) /\ Le(hout, hin)                                \* no coin hours are created
+     IN FitsU64(cout) /\ cin = cout                                      \* coins are neither created nor destroyed
+
+HoursOut(t) == SumBy(t.outs, LAMBDA o : o.hours)                         \* exact, never wrapping
+
+\* C03 inside a block: the outputs' hours do not exceed what the inputs have accrued at the previous block's
+\* time; the one documented legacy exception: an input whose final addition overflows counts as zero
+HoursValidInBlock(s, t) ==
+  /\ \A i \in DOMAIN t.ins : AccruedK(s, t.ins[i]).k # "mult"
+  /\ LET hin == SumBy(t.ins, LAMBDA id : AccruedK(s, id).r)
+     IN FitsU64(hin) /\ Le(HoursOut(t), hin)
+
+\* C03 for a new unconfirmed transaction: no legacy exception, and output hours that overflow are refused
+HoursValidSingle(s, t) ==
+  /\ \A i \in DOMAIN t.ins : AccruedK(s, t.ins[i]).k = "ok"
+  /\ LET hin == SumBy(t.ins, LAMBDA id : AccruedK(s, id).r)
+     IN FitsU64(hin) /\ FitsU64(HoursOut(t)) /\ Le(HoursOut(t), hin)
+
+TxnValid(s, t) == TxnShapeValid(s, t) /\ HoursValidInBlock(s, t)
+TxnValidSingle(s, t) == TxnShapeValid(s, t) /\ HoursValidSingle(s, t)
 
 AllIns(b) == UNION { Rng(b.txns[i].ins) : i \in DOMAIN b.txns }
 AllOuts(b) == UNION { Rng(b.txns[i].outs) : i \in DOMAIN b.txns }
@@ -63,11 +78,11 @@ Valid(s, b) ==
 Apply(s, b, newUxHash) ==
   [s EXCEPT !.len = s.len + 1, !.headSeq = b.seq, !.headTime = b.time, !.headHash = b.hash, !.uxhash = newUxHash,
             !.unspent = { u \in s.unspent : u.id \notin AllIns(b) }
-                         \cup { [id |-> o.id, coins |-> o.coins, hours |-> o.hours, time |-> b.time] : o \in AllOuts(b) },
+                         \cup { [id |-> o.id, addr |-> o.addr, coins |-> o.coins, hours |-> o.hours, time |-> b.time] : o \in AllOuts(b) },
             !.pool = s.pool \ { b.txns[i].hash : i \in DOMAIN b.txns }]
 
-RECURSIVE SumSet(_)
-SumSet(us) == IF us = {} THEN Zero ELSE LET u == CHOOSE x \in us : TRUE IN Add(u.coins, SumSet(us \ {u}))
+RECURSIVE SumCoins(_)
+SumCoins(us) == IF us = {} THEN Zero ELSE LET u == CHOOSE x \in us : TRUE IN Add(u.coins, SumCoins(us \ {u}))
 \* C01: the unspent set always holds exactly the genesis coin volume
-SupplyOK(s, volume) == SumSet(s.unspent) = volume
+SupplyOK(s, volume) == SumCoins(s.unspent) = volume
 =============================================================================
